@@ -3,6 +3,7 @@
     that does not bind, sends the request to the error path AND RETURNS; only if every
     parameter passes is the user's handler called. *)
 From Coq Require Export List Bool Arith.
+From Coq Require Import String.
 Export ListNotations.
 
 Inductive presence := Absent | Binds | Malformed.
@@ -34,3 +35,16 @@ Fixpoint wrapper_no_return (i : nat) (ps : list param) : list wevent :=
   end.
 
 Definition handler_called (t : list wevent) : bool := existsb (wevent_eqb WHandler) t.
+
+(** * Where a query parameter is looked up.  A request carries a query string and, possibly, a form-encoded body.  The
+      state of a QUERY parameter is the state of what the query string holds under its name; the body is not where query
+      parameters live, whatever its fields are called. *)
+Record qreq := { in_query : list (string * presence); in_body : list (string * presence) }.
+Definition found (l : list (string * presence)) (name : string) : presence :=
+  match find (fun p => String.eqb (fst p) name) l with Some p => snd p | None => Absent end.
+Definition read_query (r : qreq) (name : string) : presence := found (in_query r) name.
+(** net/http's Request.FormValue: the body's field wins, the query string is the fallback *)
+Definition read_form_value (r : qreq) (name : string) : presence :=
+  match found (in_body r) name with Absent => found (in_query r) name | s => s end.
+Definition qwrapper (read : qreq -> string -> presence) (decl : list (string * bool)) (r : qreq) : list wevent :=
+  wrapper 0 (map (fun d => {| p_required := snd d; p_state := read r (fst d) |}) decl).
